@@ -640,8 +640,10 @@ def gen_op(rng, pool, systems=None):
     j = rng.randrange(n)
     if j == i and n > 1 and rng.random() < 0.9:
         j = (i + 1 + rng.randrange(n - 1)) % n
-    if rng.random() < 0.04 and not (m is not None and order_dependent_selfmerge([m])):
+    if rng.random() < 0.04:
         j = i                      # merge a molecule into itself
+    if j == i and m is not None and order_dependent_selfmerge([m]):
+        return ('mkedgesall', i)   # (see Mol.selfMerge: the outcome would depend on the order of the type dict)
     if m is not None and j < n and len(m) + len(pool[j]) > 60:
         # keep molecules small (repeated merges double the size)
         return ('rmnodes', i, list(m.nodes)[::2], rng.random() < 0.5)
@@ -702,9 +704,9 @@ def merge_expect(a, b):
     edges = {(e[0], e[1]): list(e) for e in a[E_]}
     for u, v, o, k in b[E_]:
         if u != v:
-            cu, cv = corr[u], corr[v]
+            cu, cv = corr.get(u, u), corr.get(v, v)         # (an inconsistent newcomer is reported by the presence clause)
             edges[(min(cu, cv), max(cu, cv))] = [min(cu, cv), max(cu, cv), o, k]
-    inters = [list(x) for x in a[I_]] + [[t, [corr[x] for x in ats], p, v, e] for t, ats, p, v, e in b[I_]]
+    inters = [list(x) for x in a[I_]] + [[t, [corr.get(x, x) for x in ats], p, v, e] for t, ats, p, v, e in b[I_]]
     logs = {(l, e): [list(fa) for fa in fas] for l, e, fas in a[L_]}
     ok = True
     for l, e, fas in b[L_]:
@@ -916,16 +918,16 @@ def run_sequence(ops):
     def err(step, op, msg, fid=None):
         errs.append(('step %d %s: %s' % (step, op[0], msg), fid))
 
+    after, sys_after, ff_after = [], [], []
     for step, op in enumerate(ops):
-        before = [dump_mol(m) for m in pool]
-        sys_before = dump_systems(pool, systems)
-        ff_before = [ff_name(s.force_field) for s in systems]
+        # the state before this step is the state after the previous one (dumps are never mutated)
+        before, sys_before, ff_before = after, sys_after, ff_after
         out = apply(pool, op, systems)
         outs.append(out)
-        dumps.append(dump_pool(pool, systems))
         after = [dump_mol(m) for m in pool]
         sys_after = dump_systems(pool, systems)
         ff_after = [ff_name(s.force_field) for s in systems]
+        dumps.append(enc(after) + ' ' + enc(sys_after) + ' ' + enc(ff_after))
         kind = op[0]
         stop = False
         for e in check_consistency(pool):
@@ -970,184 +972,229 @@ def run_sequence(ops):
             for k, (fb, fa) in enumerate(zip(ff_before, ff_after)):
                 if fb != fa and not (kind == 'addmol' and k == op[1]):
                     err(step, op, 'changed the force field of system %d' % k)
-            for msg, fid in system_oracle(op, out, before, after, sys_before, sys_after, ff_before, ff_after):
-                err(step, op, msg, fid)
+            try:
+                for msg, fid in system_oracle(op, out, before, after, sys_before, sys_after, ff_before, ff_after):
+                    err(step, op, msg, fid)
+            except Exception as exc:
+                err(step, op, 'the system oracle could not be evaluated on this state: %r' % (exc,))
         elif sys_after != sys_before or ff_after != ff_before:
             err(step, op, 'changed the systems')
         b = before[op[1]] if (kind not in SYS_OPS and kind not in ('new', 'fromblock', 'buildblock') and op[1] < len(before)) else None
         a = after[op[1]] if b is not None else None
         if b is not None and target is not None:
-            d0 = dump_pool(pool, systems)
             for e in query_oracle(pool[op[1]], a):
                 err(step, op, e)
-            if dump_pool(pool, systems) != d0:
-                err(step, op, 'a read-only method (find_atoms / edges_between / get_interaction) changed the state')
-        # ---- per-operation clauses --------------------------------------------------------------------------------
-        if kind == 'clear' and b is not None:
-            chk.count('clear_%s' % ('with_interactions' if b[I_] else 'without_interactions'))
-            if a[N_] or a[E_]:
-                err(step, op, 'clear() left atoms or bonds')
-            if a[C_:] != b[C_:]:
-                err(step, op, 'clear() changed citations / nrexcl / force field / log entries')
-        if kind in ('mkedges', 'mkedgesall') and b is not None:
-            types = [op[2]] if kind == 'mkedges' else ['bonds', 'angles', 'dihedrals', 'cmap', 'constraints']
-            pairs = {(min(u, v), max(u, v)) for t, ats, _, _, e in b[I_] if t in types and e for u, v in zip(ats[:-1], ats[1:])}
-            old = {(e[0], e[1]): e for e in b[E_]}
-            want = sorted(list(old.get(p, [p[0], p[1], None, None])) for p in set(old) | pairs)
-            chk.count('mkedges_%s' % ('new_bonds' if pairs - set(old) else 'no_new_bond'))
-            if a[E_] != want:
-                err(step, op, 'bonds are not the old ones plus the consecutive atom pairs of the interactions with edge=True')
-            if a[N_] != b[N_] or a[I_:] != b[I_:]:
-                err(step, op, 'changed atoms / interactions / bookkeeping')
-        if kind in ('rmedge', 'rmedges') and b is not None:
-            gone = {(min(u, v), max(u, v)) for u, v in ([op[2:4]] if kind == 'rmedge' else op[2])}
-            want = [e for e in b[E_] if (e[0], e[1]) not in gone]
-            present = any((e[0], e[1]) in gone for e in b[E_])
-            chk.count('%s_%s' % (kind, out if kind == 'rmedge' else ('some_present' if present else 'none_present')))
-            if kind == 'rmedge' and out != ('ok' if present else 'nxerror'):
-                err(step, op, 'remove_edge outcome %s' % out)
-            if a[E_] != want or a[N_] != b[N_] or a[I_:] != b[I_:]:
-                err(step, op, 'did not remove exactly the listed bonds and nothing else')
-        if kind in ('addedgea', 'addedges', 'addedge') and b is not None and out == 'ok':
-            ents = [list(op[2:6]) + [None, None][:6 - len(op)]] if kind != 'addedges' else op[2]
-            want = {(e[0], e[1]): list(e) for e in b[E_]}
-            for u, v, o, k in ents:
-                key = (min(u, v), max(u, v))
-                cur = want.get(key, [key[0], key[1], None, None])
-                want[key] = [key[0], key[1], o if o is not None else cur[2], k if k is not None else cur[3]]
-            if a[E_] != sorted(want.values()):
-                err(step, op, 'bonds / bond attributes are not the old ones updated by the given ones')
-            oldkeys = [r[0] for r in b[N_]]
-            newkeys = [x for u, v, _, _ in ents for x in (u, v)]
-            wantkeys = oldkeys + [x for k, x in enumerate(newkeys) if x not in oldkeys and x not in newkeys[:k]]
-            if [r[0] for r in a[N_]] != wantkeys or a[N_][:len(oldkeys)] != b[N_] or a[I_:] != b[I_:]:
-                err(step, op, 'atoms are not the old ones plus the new end points / something else changed')
-        if kind == 'addnodesc' and b is not None:
-            rows = {r[0]: list(r) for r in b[N_]}
-            order = [r[0] for r in b[N_]]
-            for e in op[2]:
-                vals = [x if (len(e) > 1 and x is not None) else c for x, c in zip((e[1:] if len(e) > 1 else [None] * 4), op[3])]
-                if e[0] not in rows:
-                    rows[e[0]] = [e[0], None, None, None, None]
-                    order.append(e[0])
-                rows[e[0]] = [e[0]] + [v if v is not None else old for v, old in zip(vals, rows[e[0]][1:])]
-            chk.count('addnodesc_%s' % ('repeated_key' if len({e[0] for e in op[2]}) < len(op[2]) else 'distinct_keys'))
-            if a[N_] != [rows[k] for k in order] or a[E_:] != b[E_:]:
-                err(step, op, 'add_nodes_from with (key, dict) pairs / bare keys / common attributes: unexpected node table')
-        if kind == 'subgraph' and b is not None:
-            req = list(op[2])
-            keys = {r[0] for r in b[N_]}
-            chk.count('subgraph_%s_%s' % (out, 'absent_key' if any(k not in keys for k in req) else
-                                          'repeated_keys' if len(set(req)) < len(req) else 'distinct_keys'))
-            if out != ('keyerror' if any(k not in keys for k in req) else 'ok'):
-                err(step, op, 'subgraph outcome %s' % out)
-            if out == 'ok':
-                s = after[-1]
-                uniq = [k for n, k in enumerate(req) if k not in req[:n]]
-                rows = {r[0]: r for r in b[N_]}
-                if s[N_] != [rows[k] for k in uniq]:
-                    err(step, op, 'subgraph atoms are not the requested atoms once each in request order')
-                if s[E_] != [e for e in b[E_] if e[0] in req and e[1] in req]:
-                    err(step, op, 'subgraph bonds (with attributes) are not the bonds between requested atoms')
-                if s[I_] != [x for x in b[I_] if all(k in req for k in x[1])]:
-                    err(step, op, 'subgraph interactions are not those with all atoms requested')
-                if s[C_:L_] != b[C_:L_] or s[L_]:
-                    err(step, op, 'subgraph citations / nrexcl / force field differ or log entries were carried over')
-        if kind == 'copy' and b is not None and out == 'ok' and after[-1] != b:
-            err(step, op, 'the copy differs from its source')
-        if kind == 'rmmatch' and b is not None:
-            chk.count('rmmatch_%s_%s%s' % (out, 'delete_interaction' if op[6] is not None else 'interaction',
-                                           '_pred' if (isinstance(op[5], list) or any(isinstance(x, list) for t in (op[6] or []) for x in t)) else
-                                           '_v0' if op[5] == 0 else ''))
-            rows = {r[0]: r for r in b[N_]}
+            if dump_mol(pool[op[1]]) != a:
+                err(step, op, 'a read-only method (find_atoms / edges_between / get_interaction) changed the molecule')
+        def clauses():
+            # ---- per-operation clauses --------------------------------------------------------------------------------
+            if kind == 'buildblock':
+                _, cites, nrexcl, ff, steps, ao, ro, co = op
+                want_out, table = 'ok', {}
 
-            def tmatch(x):
-                if x[0] != op[2] or x[1] != list(op[3]) or (op[4] is not None and x[2] != op[4]) or not pred_holds(op[5], x[3]):
-                    return False
-                for atom, t in zip(x[1], op[6] or []):
-                    if atom not in rows:      # dangling interaction (reported by the presence clause)
-                        return False
-                    if not all(pred_holds(val, rows[atom][1 + pos]) for pos, val in enumerate(t)):
-                        return False
-                return True
-            hits = [k for k, x in enumerate(b[I_]) if tmatch(x)]
-            if out == 'ok' and (len(a[I_]) != len(b[I_]) - 1 or a[:I_] + a[C_:] != b[:I_] + b[C_:]):
-                err(step, op, 'did not remove exactly one interaction and nothing else')
-            if out == 'valueerror' and hits:
-                err(step, op, 'ValueError although %r matches' % (b[I_][hits[0]],))
-            # the FIRST interaction of the type that matches the template goes, nothing else
-            if out == 'ok' and (not hits or a[I_] != b[I_][:hits[0]] + b[I_][hits[0] + 1:]):
-                err(step, op, 'the first matching interaction (%s) is not the one that was removed' % (b[I_][hits[0]] if hits else None))
-        if kind == 'addlog' and b is not None:
-            want = {(l, e): fas for l, e, fas in b[L_]}
-            want.setdefault((op[2], op[3]), [])
-            want[(op[2], op[3])] = want[(op[2], op[3])] + [sorted([n, k] for n, k in fa) for fa in op[4]]
-            if a[L_] != sorted([l, e, fas] for (l, e), fas in want.items()) or a[:L_] != b[:L_]:
-                err(step, op, 'log entries')
-        if kind in ('rmnode', 'rmnodes') and b is not None and out == 'ok':
-            gone = set([op[2]] if kind == 'rmnode' else op[2])
-            if a[N_] != [r for r in b[N_] if r[0] not in gone] or a[E_] != [e for e in b[E_] if e[0] not in gone and e[1] not in gone] \
-                    or a[I_] != [x for x in b[I_] if not (set(x[1]) & gone)] or a[C_:L_] != b[C_:L_]:
-                err(step, op, 'removal did not drop exactly the atoms, their bonds and their interactions')
-            stale = [k for _, _, fas in a[L_] for fa in fas for _, k in fa if k in gone]
-            if stale:
-                chk.count('log_entry_mentions_removed_atom')
-        # ---- merge_molecule ---------------------------------------------------------------------------------------
-        if kind == 'merge' and b is not None and op[2] < len(before) and op[1] != op[2]:
-            a0, b0 = b, before[op[2]]
-            want_out = merge_outcome_expect(a0, b0)
-            chk.count('merge_%s%s' % (out, '_ff_mismatch' if a0[F_] != b0[F_] else '_with_logs' if b0[L_] else ''))
-            if out != want_out:
-                err(step, op, 'outcome %s, expected %s' % (out, want_out), F_LOG if 'keyerror' in (out, want_out) else None)
-            if out == 'ok':
-                ex = merge_expect(a0, b0)
-                n0 = len(a0[N_])
-                if a[N_][:n0] != a0[N_]:
-                    err(step, op, 'existing atoms changed or dropped')
-                new = a[N_][n0:]
-                if len(new) != len(b0[N_]):
-                    err(step, op, '%d new atoms for %d merged' % (len(new), len(b0[N_])))
-                oldkeys = [r[0] for r in a0[N_]]
-                if oldkeys and new and min(r[0] for r in new) <= max(oldkeys):
-                    err(step, op, 'new keys not fresh')
-                if len({r[0] for r in a[N_]}) != len(a[N_]):
-                    err(step, op, 'duplicate keys')
-                if a[N_] != ex['nodes']:
-                    err(step, op, 'new atoms are not the newcomer\'s in order, residue number and charge group shifted uniformly')
-                if a[E_] != ex['edges']:
-                    err(step, op, 'bonds (with attributes) are not old + renamed new')
-                if sorted(map(repr, a[I_])) != ex['inters']:
-                    err(step, op, 'interactions are not old + renamed new')
-                if a[C_] != ex['cites']:
-                    err(step, op, 'citations are not the union')
-                if a[L_] != ex['logs']:
-                    err(step, op, 'log entries are not old + the newcomer\'s renumbered with the atoms + the correspondence')
-                if a[F_] != a0[F_]:
-                    err(step, op, 'force field changed')
-                # a log entry of the receiving molecule that mentioned a removed atom now points to a newcomer's atom
-                keys0 = {r[0] for r in a0[N_]}
-                if any(k not in keys0 and k in ex['corr'].values() for _, _, fas in a0[L_] for fa in fas for _, k in fa):
-                    chk.count('stale_log_entry_points_to_newcomer_atom')
-        if kind == 'merge' and b is not None and op[1] == op[2]:
-            n = len(b[N_])
-            chk.count('selfmerge_%s_%s' % (out, 'empty' if n == 0 else 'one_atom%s' % ('_with_interactions' if b[I_] else '') if n == 1 else 'two_or_more_atoms'))
-            if n == 0 or (n == 1 and not b[I_]):
-                # these two cases work: the molecule is duplicated behind itself (no atom: only the log entries grow)
-                want_out = merge_outcome_expect(b, b)
+                def touch(name, vals=(None, None, None, None)):
+                    old = table.setdefault(name, [None, None, None, None])
+                    table[name] = [v if v is not None else o for v, o in zip(vals, old)]
+                for pos, st in enumerate(steps):
+                    if st[0] == 'atom':
+                        if st[1] is None:
+                            want_out = 'valueerror'
+                            break
+                        touch(st[1], st[1:5])
+                    elif st[0] == 'node':
+                        touch(st[1], st[2:6])
+                    elif st[0] == 'edge':
+                        touch(st[1]), touch(st[2])
+                    elif st[0] == 'inter' and any(x not in table for x in st[2]):
+                        want_out = 'keyerror'
+                        break
+                    elif st[0] == 'mkedges':
+                        for st2 in steps[:pos]:
+                            if st2[0] in ('inter', 'raw') and st2[1] == st[1] and st2[5] and len(st2[2]) > 1:
+                                for x in st2[2]:
+                                    touch(x)
+                if want_out == 'ok' and any(x not in table for st in steps if st[0] == 'raw' for x in st[2]):
+                    want_out = 'keyerror'                   # to_molecule meets an interaction with an unknown atom
+                chk.count('buildblock_%s' % out)
                 if out != want_out:
-                    err(step, op, 'self-merge outcome %s, expected %s' % (out, want_out), F_LOG if 'keyerror' in (out, want_out) else None)
+                    err(step, op, 'block building: outcome %s, expected %s' % (out, want_out))
+                elif out == 'ok':
+                    got = after[-1]
+                    want_nodes = [[ao + k, v[0], d1(v[1]) + ro, d1(v[2]) + co, v[3]] for k, v in enumerate(table.values())]
+                    if got[N_] != want_nodes:
+                        err(step, op, 'block building: the atoms of the molecule are not the block\'s atoms (add_atom / add_node / implicit) '
+                                      'in order with the given attributes, residue number and charge group shifted')
+                    if got[C_] != sorted(cites) or got[X_] != nrexcl or got[F_] != ff:
+                        err(step, op, 'block building: citations / nrexcl / force field')
+            if kind == 'clear' and b is not None:
+                chk.count('clear_%s' % ('with_interactions' if b[I_] else 'without_interactions'))
+                if a[N_] or a[E_]:
+                    err(step, op, 'clear() left atoms or bonds')
+                if a[C_:] != b[C_:]:
+                    err(step, op, 'clear() changed citations / nrexcl / force field / log entries')
+            if kind in ('mkedges', 'mkedgesall') and b is not None:
+                types = [op[2]] if kind == 'mkedges' else ['bonds', 'angles', 'dihedrals', 'cmap', 'constraints']
+                pairs = {(min(u, v), max(u, v)) for t, ats, _, _, e in b[I_] if t in types and e for u, v in zip(ats[:-1], ats[1:])}
+                old = {(e[0], e[1]): e for e in b[E_]}
+                want = sorted(list(old.get(p, [p[0], p[1], None, None])) for p in set(old) | pairs)
+                chk.count('mkedges_%s' % ('new_bonds' if pairs - set(old) else 'no_new_bond'))
+                if a[E_] != want:
+                    err(step, op, 'bonds are not the old ones plus the consecutive atom pairs of the interactions with edge=True')
+                if a[N_] != b[N_] or a[I_:] != b[I_:]:
+                    err(step, op, 'changed atoms / interactions / bookkeeping')
+            if kind in ('rmedge', 'rmedges') and b is not None:
+                gone = {(min(u, v), max(u, v)) for u, v in ([op[2:4]] if kind == 'rmedge' else op[2])}
+                want = [e for e in b[E_] if (e[0], e[1]) not in gone]
+                present = any((e[0], e[1]) in gone for e in b[E_])
+                chk.count('%s_%s' % (kind, out if kind == 'rmedge' else ('some_present' if present else 'none_present')))
+                if kind == 'rmedge' and out != ('ok' if present else 'nxerror'):
+                    err(step, op, 'remove_edge outcome %s' % out)
+                if a[E_] != want or a[N_] != b[N_] or a[I_:] != b[I_:]:
+                    err(step, op, 'did not remove exactly the listed bonds and nothing else')
+            if kind in ('addedgea', 'addedges', 'addedge') and b is not None and out == 'ok':
+                ents = [list(op[2:6]) + [None, None][:6 - len(op)]] if kind != 'addedges' else op[2]
+                want = {(e[0], e[1]): list(e) for e in b[E_]}
+                for u, v, o, k in ents:
+                    key = (min(u, v), max(u, v))
+                    cur = want.get(key, [key[0], key[1], None, None])
+                    want[key] = [key[0], key[1], o if o is not None else cur[2], k if k is not None else cur[3]]
+                if a[E_] != sorted(want.values()):
+                    err(step, op, 'bonds / bond attributes are not the old ones updated by the given ones')
+                oldkeys = [r[0] for r in b[N_]]
+                newkeys = [x for u, v, _, _ in ents for x in (u, v)]
+                wantkeys = oldkeys + [x for k, x in enumerate(newkeys) if x not in oldkeys and x not in newkeys[:k]]
+                if [r[0] for r in a[N_]] != wantkeys or a[N_][:len(oldkeys)] != b[N_] or a[I_:] != b[I_:]:
+                    err(step, op, 'atoms are not the old ones plus the new end points / something else changed')
+            if kind == 'addnodesc' and b is not None:
+                rows = {r[0]: list(r) for r in b[N_]}
+                order = [r[0] for r in b[N_]]
+                for e in op[2]:
+                    vals = [x if (len(e) > 1 and x is not None) else c for x, c in zip((e[1:] if len(e) > 1 else [None] * 4), op[3])]
+                    if e[0] not in rows:
+                        rows[e[0]] = [e[0], None, None, None, None]
+                        order.append(e[0])
+                    rows[e[0]] = [e[0]] + [v if v is not None else old for v, old in zip(vals, rows[e[0]][1:])]
+                chk.count('addnodesc_%s' % ('repeated_key' if len({e[0] for e in op[2]}) < len(op[2]) else 'distinct_keys'))
+                if a[N_] != [rows[k] for k in order] or a[E_:] != b[E_:]:
+                    err(step, op, 'add_nodes_from with (key, dict) pairs / bare keys / common attributes: unexpected node table')
+            if kind == 'subgraph' and b is not None:
+                req = list(op[2])
+                keys = {r[0] for r in b[N_]}
+                chk.count('subgraph_%s_%s' % (out, 'absent_key' if any(k not in keys for k in req) else
+                                              'repeated_keys' if len(set(req)) < len(req) else 'distinct_keys'))
+                if out != ('keyerror' if any(k not in keys for k in req) else 'ok'):
+                    err(step, op, 'subgraph outcome %s' % out)
                 if out == 'ok':
-                    ex = merge_expect(b, b)
-                    if a[N_] != ex['nodes'] or a[E_] != ex['edges'] or sorted(map(repr, a[I_])) != ex['inters'] or a[C_] != ex['cites'] \
-                            or a[L_] != ex['logs']:
-                        err(step, op, 'self-merge: the result is not the molecule followed by its shifted duplicate')
-            else:
-                # the property asks for a duplicate of the molecule behind itself; what the code does instead is pinned
-                # by the correspondence with the model (Mol.selfMerge)
-                err(step, op, 'a molecule merged into itself: outcome %s, %d atoms afterwards instead of %d'
-                    % (out, len(a[N_]), 2 * n), F_SELF)
-                if a[N_][:n] != b[N_] or a[E_] != b[E_] or a[I_][:0] != [] or a[C_:] != b[C_:]:
-                    err(step, op, 'self-merge changed existing atoms / bonds / bookkeeping')
+                    s = after[-1]
+                    uniq = [k for n, k in enumerate(req) if k not in req[:n]]
+                    rows = {r[0]: r for r in b[N_]}
+                    if s[N_] != [rows[k] for k in uniq]:
+                        err(step, op, 'subgraph atoms are not the requested atoms once each in request order')
+                    if s[E_] != [e for e in b[E_] if e[0] in req and e[1] in req]:
+                        err(step, op, 'subgraph bonds (with attributes) are not the bonds between requested atoms')
+                    if s[I_] != [x for x in b[I_] if all(k in req for k in x[1])]:
+                        err(step, op, 'subgraph interactions are not those with all atoms requested')
+                    if s[C_:L_] != b[C_:L_] or s[L_]:
+                        err(step, op, 'subgraph citations / nrexcl / force field differ or log entries were carried over')
+            if kind == 'copy' and b is not None and out == 'ok' and after[-1] != b:
+                err(step, op, 'the copy differs from its source')
+            if kind == 'rmmatch' and b is not None:
+                chk.count('rmmatch_%s_%s%s' % (out, 'delete_interaction' if op[6] is not None else 'interaction',
+                                               '_pred' if (isinstance(op[5], list) or any(isinstance(x, list) for t in (op[6] or []) for x in t)) else
+                                               '_v0' if op[5] == 0 else ''))
+                rows = {r[0]: r for r in b[N_]}
+
+                def tmatch(x):
+                    if x[0] != op[2] or x[1] != list(op[3]) or (op[4] is not None and x[2] != op[4]) or not pred_holds(op[5], x[3]):
+                        return False
+                    for atom, t in zip(x[1], op[6] or []):
+                        if atom not in rows:      # dangling interaction (reported by the presence clause)
+                            return False
+                        if not all(pred_holds(val, rows[atom][1 + pos]) for pos, val in enumerate(t)):
+                            return False
+                    return True
+                hits = [k for k, x in enumerate(b[I_]) if tmatch(x)]
+                if out == 'ok' and (len(a[I_]) != len(b[I_]) - 1 or a[:I_] + a[C_:] != b[:I_] + b[C_:]):
+                    err(step, op, 'did not remove exactly one interaction and nothing else')
+                if out == 'valueerror' and hits:
+                    err(step, op, 'ValueError although %r matches' % (b[I_][hits[0]],))
+                # the FIRST interaction of the type that matches the template goes, nothing else
+                if out == 'ok' and (not hits or a[I_] != b[I_][:hits[0]] + b[I_][hits[0] + 1:]):
+                    err(step, op, 'the first matching interaction (%s) is not the one that was removed' % (b[I_][hits[0]] if hits else None))
+            if kind == 'addlog' and b is not None:
+                want = {(l, e): fas for l, e, fas in b[L_]}
+                want.setdefault((op[2], op[3]), [])
+                want[(op[2], op[3])] = want[(op[2], op[3])] + [sorted([n, k] for n, k in fa) for fa in op[4]]
+                if a[L_] != sorted([l, e, fas] for (l, e), fas in want.items()) or a[:L_] != b[:L_]:
+                    err(step, op, 'log entries')
+            if kind in ('rmnode', 'rmnodes') and b is not None and out == 'ok':
+                gone = set([op[2]] if kind == 'rmnode' else op[2])
+                if a[N_] != [r for r in b[N_] if r[0] not in gone] or a[E_] != [e for e in b[E_] if e[0] not in gone and e[1] not in gone] \
+                        or a[I_] != [x for x in b[I_] if not (set(x[1]) & gone)] or a[C_:L_] != b[C_:L_]:
+                    err(step, op, 'removal did not drop exactly the atoms, their bonds and their interactions')
+                stale = [k for _, _, fas in a[L_] for fa in fas for _, k in fa if k in gone]
+                if stale:
+                    chk.count('log_entry_mentions_removed_atom')
+            # ---- merge_molecule ---------------------------------------------------------------------------------------
+            if kind == 'merge' and b is not None and op[2] < len(before) and op[1] != op[2]:
+                a0, b0 = b, before[op[2]]
+                want_out = merge_outcome_expect(a0, b0)
+                chk.count('merge_%s%s' % (out, '_ff_mismatch' if a0[F_] != b0[F_] else '_with_logs' if b0[L_] else ''))
+                if out != want_out:
+                    err(step, op, 'outcome %s, expected %s' % (out, want_out), F_LOG if 'keyerror' in (out, want_out) else None)
+                if out == 'ok':
+                    ex = merge_expect(a0, b0)
+                    n0 = len(a0[N_])
+                    if a[N_][:n0] != a0[N_]:
+                        err(step, op, 'existing atoms changed or dropped')
+                    new = a[N_][n0:]
+                    if len(new) != len(b0[N_]):
+                        err(step, op, '%d new atoms for %d merged' % (len(new), len(b0[N_])))
+                    oldkeys = [r[0] for r in a0[N_]]
+                    if oldkeys and new and min(r[0] for r in new) <= max(oldkeys):
+                        err(step, op, 'new keys not fresh')
+                    if len({r[0] for r in a[N_]}) != len(a[N_]):
+                        err(step, op, 'duplicate keys')
+                    if a[N_] != ex['nodes']:
+                        err(step, op, 'new atoms are not the newcomer\'s in order, residue number and charge group shifted uniformly')
+                    if a[E_] != ex['edges']:
+                        err(step, op, 'bonds (with attributes) are not old + renamed new')
+                    if sorted(map(repr, a[I_])) != ex['inters']:
+                        err(step, op, 'interactions are not old + renamed new')
+                    if a[C_] != ex['cites']:
+                        err(step, op, 'citations are not the union')
+                    if a[L_] != ex['logs']:
+                        err(step, op, 'log entries are not old + the newcomer\'s renumbered with the atoms + the correspondence')
+                    if a[F_] != a0[F_]:
+                        err(step, op, 'force field changed')
+                    # a log entry of the receiving molecule that mentioned a removed atom now points to a newcomer's atom
+                    keys0 = {r[0] for r in a0[N_]}
+                    if any(k not in keys0 and k in ex['corr'].values() for _, _, fas in a0[L_] for fa in fas for _, k in fa):
+                        chk.count('stale_log_entry_points_to_newcomer_atom')
+            if kind == 'merge' and b is not None and op[1] == op[2]:
+                n = len(b[N_])
+                chk.count('selfmerge_%s_%s' % (out, 'empty' if n == 0 else 'one_atom%s' % ('_with_interactions' if b[I_] else '') if n == 1 else 'two_or_more_atoms'))
+                if n == 0 or (n == 1 and not b[I_]):
+                    # these two cases work: the molecule is duplicated behind itself (no atom: only the log entries grow)
+                    want_out = merge_outcome_expect(b, b)
+                    if out != want_out:
+                        err(step, op, 'self-merge outcome %s, expected %s' % (out, want_out), F_LOG if 'keyerror' in (out, want_out) else None)
+                    if out == 'ok':
+                        ex = merge_expect(b, b)
+                        if a[N_] != ex['nodes'] or a[E_] != ex['edges'] or sorted(map(repr, a[I_])) != ex['inters'] or a[C_] != ex['cites'] \
+                                or a[L_] != ex['logs']:
+                            err(step, op, 'self-merge: the result is not the molecule followed by its shifted duplicate')
+                else:
+                    # the property asks for a duplicate of the molecule behind itself; what the code does instead is pinned
+                    # by the correspondence with the model (Mol.selfMerge)
+                    err(step, op, 'a molecule merged into itself: outcome %s, %d atoms afterwards instead of %d'
+                        % (out, len(a[N_]), 2 * n), F_SELF)
+                    if a[N_][:n] != b[N_] or a[E_] != b[E_] or a[I_][:0] != [] or a[C_:] != b[C_:]:
+                        err(step, op, 'self-merge changed existing atoms / bonds / bookkeeping')
+        try:
+            clauses()
+        except Exception as exc:  # an inconsistent state the clauses were not written for
+            err(step, op, 'the oracle could not be evaluated on this state: %r' % (exc,))
         if stop:
             break
     return outs, dumps, errs
@@ -1187,7 +1234,7 @@ for ops in load_corpus():
 rng = chk.rng('ops')
 NSEQ = 2000 if chk.thorough else 500
 for s in range(NSEQ):
-    L = rng.choice([5, 10, 20, 40]) if not chk.thorough else rng.choice([10, 40, 100, 300])
+    L = rng.choice([5, 10, 20, 40]) if not chk.thorough else rng.choice([10, 40, 100, 200])
     SYS_RATE = rng.choice([0.0, 0.1, 0.3])          # a third of the histories are system-heavy
     MAIN_FF = rng.choice([None, None, 'ffA'])
     sequences.append(gen_sequence(rng, L))
